@@ -1990,6 +1990,62 @@ func (f *Flow) RangeOfX(n ast.Node) *ast.RangeStmt {
 }
 
 
+// localAlwaysConstructed: e is a local variable every definition of which is a constructed value (`wrapped :=
+// temporaryErr{…}; return wrapped`).
+func localAlwaysConstructed(info *types.Info, body ast.Node, e ast.Expr) bool {
+	id, ok := ast.Unparen(e).(*ast.Ident)
+	if !ok {
+		return false
+	}
+	v, isVar := info.Uses[id].(*types.Var)
+	if !isVar || v.IsField() || v.Pkg() == nil || v.Parent() == v.Pkg().Scope() {
+		return false
+	}
+	if _, isIface := v.Type().Underlying().(*types.Interface); isIface {
+		// an interface variable may have been declared without a value
+		declaredZero := false
+		ast.Inspect(body, func(x ast.Node) bool {
+			if vs, ok := x.(*ast.ValueSpec); ok && len(vs.Values) == 0 {
+				for _, nm := range vs.Names {
+					if info.Defs[nm] == types.Object(v) {
+						declaredZero = true
+					}
+				}
+			}
+			return true
+		})
+		if declaredZero {
+			return false
+		}
+	}
+	n, all := 0, true
+	ast.Inspect(body, func(x ast.Node) bool {
+		switch s := x.(type) {
+		case *ast.AssignStmt:
+			for i, l := range s.Lhs {
+				if objOf(info, l) != types.Object(v) {
+					continue
+				}
+				n++
+				if len(s.Lhs) != len(s.Rhs) || !nonNilErrExpr(info, s.Rhs[i]) {
+					all = false
+				}
+			}
+		case *ast.ValueSpec:
+			for i, nm := range s.Names {
+				if info.Defs[nm] == types.Object(v) && i < len(s.Values) {
+					n++
+					if !nonNilErrExpr(info, s.Values[i]) {
+						all = false
+					}
+				}
+			}
+		}
+		return true
+	})
+	return all && n > 0
+}
+
 var nonNilFuncCache = map[*types.Func]bool{}
 
 var nilPreservingCache = map[*types.Func]int{}
@@ -2117,7 +2173,7 @@ func alwaysNonNilErrFunc(fn *types.Func, depth int) bool {
 				if !alwaysNonNilErrFunc(callee(d.Info(), call), depth+1) {
 					all = false
 				}
-			} else if !nonNilErrExpr(d.Info(), e) {
+			} else if !nonNilErrExpr(d.Info(), e) && !localAlwaysConstructed(d.Info(), d.Decl.Body, e) {
 				all = false
 			}
 		}
